@@ -1,6 +1,110 @@
 import OtelVerif.Common.Line
 import OtelVerif.Model.C03
-/-! driver for C03 (stub) -/
-def main : IO UInt32 := do
-  IO.eprintln "drv_c03: not built yet"
-  return 2
+/-! driver for C03: model `c03-shutdown` — the Lean monitor `C03.verdict` evaluated on the recorded trace of the real exporter -/
+open OtelVerif OtelVerif.Line OtelVerif.C03
+
+namespace OtelVerif.Drivers.C03
+
+def parseIds (s : String) : Option (List Nat) :=
+  if s = "-" then some [] else (s.splitOn ",").mapM String.toNat?
+
+def showIds (l : List Nat) : String :=
+  if l.isEmpty then "-" else ",".intercalate (l.map toString)
+
+structure S where
+  persistent : Bool := false
+  batch : Nat := 0
+  haveCfg : Bool := false
+  evs : List Ev := []          -- reversed
+  recovered : List Nat := []
+  stored : List Nat := []
+  leak : Nat := 0
+  uac : Option String := none
+  skipped : Bool := false
+  bad : Option String := none
+
+def handler : Handler S where
+  init := {}
+  onOp := fun s toks =>
+    match toks with
+    | "cfg" :: rest =>
+      match kvNat rest "persistent", kvNat rest "batch", kvNat rest "queue", kvNat rest "retry", kvNat rest "consumers" with
+      | some p, some b, some _, some _, some _ => ({ s with persistent := p == 1, batch := b, haveCfg := true }, [])
+      | _, _, _, _, _ => (s, ["obs bad-op"])
+    | ["act", at_, "shutdown"] => if at_.toNat?.isSome then (s, []) else (s, ["obs bad-op"])
+    | ["act", at_, "send", rid, n] =>
+      if at_.toNat?.isSome && rid.toNat?.isSome && n.toNat?.isSome then (s, []) else (s, ["obs bad-op"])
+    | ["backend", i, d, o] =>
+      if i.toNat?.isSome && d.toNat?.isSome && o.toNat?.isSome then (s, []) else (s, ["obs bad-op"])
+    | _ => (s, ["obs bad-op"])
+  onObs := fun s toks =>
+    match toks with
+    | ["tr", "acc", _, ids] =>
+      match parseIds ids with
+      | some is => { s with evs := Ev.acc is :: s.evs }
+      | none => { s with bad := some "acc" }
+    | ["tr", "rej", _, _] => s
+    | ["tr", "shutreq"] => { s with evs := Ev.shutReq :: s.evs }
+    | ["tr", "shutret", _] => { s with evs := Ev.shutRet :: s.evs }
+    | ["tr", "es", c, ids] =>
+      match c.toNat?, parseIds ids with
+      | some c, some is => { s with evs := Ev.es c is :: s.evs }
+      | _, _ => { s with bad := some "es" }
+    | ["tr", "ee", c, f] =>
+      match c.toNat?, f.toNat? with
+      | some c, some f => { s with evs := Ev.ee c (f == 1) :: s.evs }
+      | _, _ => { s with bad := some "ee" }
+    | ["tr", "wshut"] => s
+    | ["tr", "uac", op] => { s with uac := some op }
+    | ["tr", "stored", ids] =>
+      match parseIds ids with
+      | some is => { s with stored := is }
+      | none => { s with bad := some "stored" }
+    | ["tr", "recovered", ids] =>
+      match parseIds ids with
+      | some is => { s with recovered := is }
+      | none => { s with bad := some "recovered" }
+    | ["tr", "leak", n] =>
+      match n.toInt? with
+      | some n => { s with leak := n.toNat }
+      | none => { s with bad := some "leak" }
+    | "tr" :: "builderr" :: _ => { s with skipped := true }
+    | "tr" :: _ => { s with bad := some "unknown tr line" }
+    | _ => s
+  onEnd := fun s =>
+    if s.skipped then ["obs skipped"] else
+    match s.bad with
+    | some b => [s!"obs unparsable {b}", s!"prop trace=FAIL sig=C03/harness/unparsable {b}"]
+    | none =>
+      let t := s.evs.reverse
+      let v := verdict t
+      let kind := if s.persistent then "persistent" else "memory"
+      let und := if s.persistent then lostPersistent t s.stored else v.undrained
+      let unrec := if s.persistent then (lostPersistent t s.recovered).filter (fun x => s.stored.contains x) else []
+      let obs := s!"obs verdict returned={if v.returned then 1 else 0} undrained={showIds und} unrecovered={showIds unrec} dup={showIds v.duplicated} open={showIds v.openCalls} late={showIds v.lateCalls}"
+      let pReturned := if v.returned then "prop returns=ok" else s!"prop returns=FAIL sig=C03/shutdown/never-returns queue={kind} batch={s.batch}"
+      let pDrained :=
+        if !v.returned || und.isEmpty then "prop drained=ok"
+        else if s.persistent then s!"prop drained=FAIL sig=C03/persistent/accepted-item-neither-exported-nor-stored items={showIds und} batch={s.batch}"
+        else s!"prop drained=FAIL sig=C03/memory/accepted-item-never-exported items={showIds und} batch={s.batch}"
+      let pRecover :=
+        if !v.returned || unrec.isEmpty then "prop redelivered=ok"
+        else s!"prop redelivered=FAIL sig=C03/persistent/stored-item-not-redelivered-by-next-start items={showIds unrec} batch={s.batch}"
+      let pOnce :=
+        if !v.returned || v.duplicated.isEmpty then "prop once=ok"
+        else s!"prop once=FAIL sig=C03/{kind}/exported-twice-without-failure items={showIds v.duplicated} batch={s.batch}"
+      let pQuiet :=
+        if !v.returned then "prop quiet=ok"
+        else if !v.openCalls.isEmpty then s!"prop quiet=FAIL sig=C03/quiet/export-call-still-running-at-return calls={showIds v.openCalls} batch={s.batch}"
+        else if !v.lateCalls.isEmpty then s!"prop quiet=FAIL sig=C03/quiet/export-call-begins-after-return calls={showIds v.lateCalls} batch={s.batch}"
+        else if s.leak > 0 then s!"prop quiet=FAIL sig=C03/quiet/goroutine-left-running n={s.leak} queue={kind} batch={s.batch}"
+        else "prop quiet=ok"
+      let pStore := match s.uac with
+        | some op => s!"prop storage=FAIL sig=C03/persistent/storage-used-after-close op={op}"
+        | none => "prop storage=ok"
+      [obs, pReturned, pDrained, pRecover, pOnce, pQuiet, pStore]
+
+end OtelVerif.Drivers.C03
+
+def main : IO UInt32 :=
+  runMulti [("c03-shutdown", run OtelVerif.Drivers.C03.handler)]
